@@ -224,6 +224,9 @@ class SA(np.ndarray):
             for i in range(1, len(cells)):
                 acc = ite(SymBool(k.t == i), cells[i], acc)
             return acc
+        if isinstance(key, tuple) and len(key) >= 1 and isinstance(key[0], np.ndarray) and key[0].dtype == object:
+            m0 = np.array([bool(c) for c in key[0].view(np.ndarray).reshape(-1)], dtype=bool)
+            return super().__getitem__((m0,) + tuple(key[1:]))
         if isinstance(key, np.ndarray) and key.dtype == object and key.shape == self.shape:
             # boolean mask with symbolic cells: the selection (and the result's length) depends on the
             # values, so the mask is realised cell by cell (forks)
@@ -262,6 +265,11 @@ class SA(np.ndarray):
 
     def prod(self, axis=None, **k):
         return _wrap(np.multiply.reduce(self.view(np.ndarray), axis=axis, dtype=object))
+
+    def mean(self, axis=None, **k):
+        tot = sa_sum(self, axis=axis)
+        cnt = self.size if axis is None else self.shape[axis]
+        return tot / cnt
 
     def dot(self, other):
         return sym_matmul(self, other)
